@@ -375,6 +375,58 @@ pub fn gen(out: &mut dyn Write, which: &str, seed: u64, thorough: bool) {
             }
             emit_any(out, &mut hist, si, &wz, "crafted_syndromes");
         }
+        // error patterns with locations outside the (shortened) block: a word whose syndromes are those of
+        // v <= t errors at exponents i_1..i_v of which at least one is >= n (the block length). The locator
+        // search succeeds, the Chien search finds all roots, and the correction step has to notice that a
+        // location lies in front of the block (exactly at x^n, one further, at x^254, anywhere).
+        for si in 0..n_sizes {
+            let g = geom(si);
+            let t = g.k / 2;
+            for b in 0..g.blocks {
+                let idx = block_indices(&g, b);
+                let n = idx.len();
+                let mut outside: Vec<usize> = vec![n, n + 1, 254, n + (254 - n) / 2];
+                for _ in 0..(if thorough { 12 } else { 2 }) {
+                    outside.push(n + rng.below(255 - n));
+                }
+                for (q, &io) in outside.iter().enumerate() {
+                    if io > 254 {
+                        continue;
+                    }
+                    // number of additional in-range errors
+                    let extra = match q % 3 { 0 => 0, 1 => rng.below(t), _ => t - 1 };
+                    let mut exps = std::collections::BTreeSet::new();
+                    exps.insert(io);
+                    if q % 4 == 3 && t >= 2 {
+                        // two locations outside
+                        exps.insert(n + rng.below(255 - n));
+                    }
+                    while exps.len() < (1 + extra).min(t) {
+                        exps.insert(rng.below(n));
+                    }
+                    let locs: Vec<(u8, u8)> = exps.iter().map(|&i| (gf_pow2(i), 1 + rng.below(255) as u8)).collect();
+                    let syn: Vec<u8> = (0..g.k)
+                        .map(|j| {
+                            let mut s = 0u8;
+                            for (x, y) in &locs {
+                                let mut p = *y;
+                                for _ in 0..=j {
+                                    p = gf_mul(p, *x);
+                                }
+                                s ^= p;
+                            }
+                            s
+                        })
+                        .collect();
+                    let p = word_with_syndromes(&syn);
+                    let mut wz = if q % 2 == 0 { vec![0u8; g.total] } else { codeword(&mut rng, si, false) };
+                    for (d, c) in p.iter().enumerate() {
+                        wz[idx[n - 1 - d]] ^= *c;
+                    }
+                    emit_any(out, &mut hist, si, &wz, "virtual_location");
+                }
+            }
+        }
         // small sizes: many random words (the chance of a miscorrection is highest there)
         for _ in 0..(if thorough { 300000 } else { 20000 }) {
             let si = *rng.pick(&[0usize, 1, 2, 3, 4, 8, 24]);
